@@ -340,6 +340,7 @@ type opRec struct {
 	invStep  int
 	retStep  int
 	txB, txA int // number of recorded transitions at invoke / return
+	hkB      int // handler call index at invoke
 	res      am.Result
 	done     bool
 	panicked string
@@ -613,7 +614,7 @@ func (w *mw) handlerInFinal() bool {
 // exec performs one API call and records it.
 func (w *mw) exec(task string, op mwOp, fromHandler bool) *opRec {
 	m := w.m
-	r := &opRec{task: task, op: op, invStep: w.s.Step(), fromH: fromHandler, txB: len(w.txs)}
+	r := &opRec{task: task, op: op, invStep: w.s.Step(), fromH: fromHandler, txB: len(w.txs), hkB: w.hk}
 	w.ops = append(w.ops, r)
 	var args am.A
 	if op.id != "" {
